@@ -151,6 +151,9 @@ func (ex *Exec) ResetRun() {
 	ex.Steps = 0
 	ex.Events = nil
 	ex.digitMemo = nil
+	ex.KeepHarnessOutcomes = true
+	factsCache = map[int]*facts{}
+	setTermMemo = map[string]*term.Term{}
 	ex.ymdMemo = nil
 	ex.randN = 0
 }
